@@ -39,7 +39,8 @@ type PropSpec struct {
 	Functions []string // the functions under test (for the evidence text)
 	Bounds    map[string]string
 	Assume    []string
-	Extra     func(ctx *checkCtx) // additional native work (thorough tiers)
+	Extra     func(ctx *checkCtx)                           // additional native work (thorough tiers)
+	Confirm   func(ctx *checkCtx, failures []*Failure) bool // property-specific native confirmation; returns true if it handled the failures
 }
 
 type knownEntry struct {
@@ -224,6 +225,20 @@ func runCheck(spec *PropSpec, tier string, seed, workers int) int {
 				ctx.inconcl = append(ctx.inconcl, hs.Name+": path budget exhausted")
 			}
 			allFailures = append(allFailures, hr.Failures...)
+		}
+	}
+	if spec.Confirm != nil && len(allFailures) > 0 {
+		var rest []*Failure
+		var mine []*Failure
+		for _, f := range allFailures {
+			if strings.Contains(f.Msg, "shared") {
+				mine = append(mine, f)
+			} else {
+				rest = append(rest, f)
+			}
+		}
+		if len(mine) > 0 && spec.Confirm(ctx, mine) {
+			allFailures = rest
 		}
 	}
 	// replay counterexamples natively, grouped
@@ -512,4 +527,59 @@ func c09NativeDeterminism(ctx *checkCtx) {
 		}
 	}
 	ctx.extraEvidence["native_determinism_runs"] = runs
+}
+
+// c14RaceConfirm: a path on which an API call writes shared memory is a
+// candidate; it is reported only if the native stress test under the race
+// detector reports a data race or an invalid result (DESIGN §5 C14).
+func c14RaceConfirm(ctx *checkCtx, failures []*Failure) bool {
+	sites := map[string]int{}
+	for _, f := range failures {
+		sites[f.Detail]++
+	}
+	rp, err := NewRaceReplayer("spg")
+	if err != nil {
+		ctx.inconcl = append(ctx.inconcl, "race confirmation build failed: "+firstLine(err.Error()))
+		return true
+	}
+	defer rp.Close()
+	out, verdict := rp.RunRace()
+	ctx.replays++
+	desc := fmt.Sprintf("%d paths on which an API call writes memory shared with other callers", len(failures))
+	if len(failures) > 0 && failures[0].Replay != nil {
+		desc += " (first: " + failures[0].Msg + ")"
+	}
+	if verdict == "reproduced" {
+		ctx.reproduced++
+		path := filepath.Join(verifDir, "replays", "C14", "race-0.json")
+		rf := &ReplayFile{Property: "C14", Harness: "H14", Tier: ctx.tier, Expect: "race", Msg: firstLine(out), Values: map[string]uint64{}, Bytes: map[string]string{}, Choices: map[string]int{}}
+		writeJSON(path, rf)
+		ctx.violations = append(ctx.violations, fmt.Sprintf("VIOLATION property=C14 replay=%s", path))
+		ctx.notes = append(ctx.notes, "violation: "+desc+"; confirmed natively: "+firstLine(out))
+	} else {
+		ctx.inconcl = append(ctx.inconcl, "shared-write candidate not confirmed by the race detector ("+verdict+"): "+desc)
+	}
+	return true
+}
+
+// c14RaceAlways: thorough tier runs the race stress as supplementary evidence.
+func c14RaceAlways(ctx *checkCtx) {
+	if ctx.tier != "thorough" || len(ctx.violations) > 0 {
+		return
+	}
+	rp, err := NewRaceReplayer("spg")
+	if err != nil {
+		ctx.inconcl = append(ctx.inconcl, "race stress build failed: "+firstLine(err.Error()))
+		return
+	}
+	defer rp.Close()
+	out, verdict := rp.RunRace()
+	ctx.replays++
+	ctx.extraEvidence["native_race_stress"] = firstLine(out)
+	if verdict == "reproduced" {
+		path := filepath.Join(verifDir, "replays", "C14", "race-0.json")
+		writeJSON(path, &ReplayFile{Property: "C14", Harness: "H14", Tier: ctx.tier, Expect: "race", Msg: firstLine(out), Values: map[string]uint64{}, Bytes: map[string]string{}, Choices: map[string]int{}})
+		ctx.violations = append(ctx.violations, fmt.Sprintf("VIOLATION property=C14 replay=%s", path))
+		ctx.notes = append(ctx.notes, "violation: native race stress: "+firstLine(out))
+	}
 }
